@@ -12,7 +12,10 @@ A(n) == Rep(97, n)
 xcom == <<120, DOT, 99, 111, 109>>
 LPool == { <<97>>, <<97, DOT, 98>>, <<DQ, 97, SP, 98, DQ>>, <<DQ, 97, AT, 98, DQ>>, <<97, DQ, 98>>, <<97, DOT, DOT, 98>>,
            <<DQ, 97, CR, LF, SP, DQ>>, <<DQ, 97, DQ, 98>>, <<195, 169>>, <<255>>, <<97, SP, 98>>, <<LPAR, 97>>, <<DOT, 97>>,
-           <<97, HASH>>, <<DQ, BS, 1, DQ>>, <<DQ, 1, DQ>>, <<97, AT, 98>>, <<AT>>, <<>> }
+           <<97, HASH>>, <<DQ, BS, 1, DQ>>, <<DQ, 1, DQ>>, <<97, AT, 98>>, <<AT>>, <<>>,
+           \* quoted specials: a colon, brackets, dots or '@' in the local part must not influence how the domain is judged
+           <<DQ, COLON, DQ>>, <<DQ, 97, COLON, 98, DQ>>, <<DQ, LBR, DQ>>, <<DQ, RBR, DQ>>, <<DQ, 97, DOT, 98, DQ>>, <<DQ, LBR, 49, RBR, DQ>>,
+           <<97, DOT, DQ, 98, DQ>>, <<49>>, <<49, DOT, 50>> }
 DPool == { xcom, <<88, DOT, 67, 79, 77>>, xcom \o <<DOT>>, xcom \o <<DOT, DOT>>, S_localhost, S_example \o <<DOT>> \o S_org,
            <<97, DOT>> \o S_test, <<120, DOT, 122, 122>>, <<98>>, <<49, 50, 51, DOT, 52, 53>>, <<97, HYPHEN, DOT, 99, 111, 109>>,
            <<LBR, 49, DOT, 50, DOT, 51, DOT, 52, RBR>>, <<LBR>> \o TagIPv6 \o <<COLON, COLON, 49, 49, RBR>>,
@@ -32,7 +35,8 @@ FamLen  == UNION { { A(n) \o <<AT>> \o xcom,
                      A(n) \o <<AT, LBR, 49, DOT, 50, DOT, 51, DOT, 52, RBR>>,
                      A(n - 2) \o <<195, 169, AT>> \o xcom,
                      <<DQ, 97, AT>> \o A(n - 4) \o <<DQ, AT>> \o xcom,           \* an '@' inside a quoted local part of n octets
-                     <<DQ, AT>> \o A(n - 3) \o <<DQ, AT, LBR, 49, DOT, 50, DOT, 51, DOT, 52, RBR>> } : n \in 58..70 }
+                     <<DQ, AT>> \o A(n - 3) \o <<DQ, AT, LBR, 49, DOT, 50, DOT, 51, DOT, 52, RBR>>,
+                     A(n) \o <<AT>>, A(n) \o <<AT, AT>>, A(n), <<AT>> \o A(n), A(n) \o <<AT, DOT>>, A(n) \o <<AT, LBR>> } : n \in 58..70 }
            \cup UNION { { A(n) \o <<AT>> \o xcom, JoinWith([i \in 1..((n + 1) \div 2) |-> <<97>>], DOT) \o <<AT>> \o xcom,
                           <<DQ>> \o A(n) \o <<DQ, AT>> \o xcom, <<120, AT>> \o A(n) \o <<DOT>> \o S_com,
                           <<120, AT>> \o JoinWith(<<A(n), A(n), A((n % 60) + 1), S_com>>, DOT) } : n \in 1..57 }
